@@ -5,7 +5,8 @@ From IBL.lib Require Import PyInt.
 From IBL.C17 Require Import Model.
 From Coq Require Import Reals.
 From Flocq Require Import Core BinarySingleNaN.
-From IBL.C03 Require Import Model RtLib Proofs Gains Codec MetaProofs EndToEnd AnyGain Run RunSound.
+From IBL.C17 Require FloatCeil.
+From IBL.C03 Require Import Model RtLib Proofs Gains Codec MetaProofs EndToEnd AnyGain Lattice Run RunSound.
 From IBL.C03 Require Rt_050_512 Rt_050_2048 Rt_050_8192 Rt_060_512 Rt_060_2048 Rt_060_8192
                      Rt_062_512 Rt_062_2048 Rt_062_8192 Rt_sync.
 Import ListNotations.
@@ -274,6 +275,34 @@ Print Assumptions C03_accepted_windows_lossless_and_inverse.
 Example C03_example_refused_windows :
   params_status 300 = 1 /\ params_status 576 = 1 /\ params_status 590 = 1 /\ params_status 588 = 0 /\
   kept_list 200 300 [(0, 200)] 0 = [(0, 12)] /\ firstlast 1000 300 OVERLAP = None.
+Proof. vm_compute. repeat split. Qed.
+
+(* ---- recording lengths exactly on the window lattice ns = W + k (W - 576) ----
+   the window count as the source computes it in binary64 (C17's FloatCeil.nwin_float64, Flocq) is
+   exactly k + 1 there (one sample more: k + 2; one less, k >= 1: k + 1), it is the model's nwin, and
+   _ind2save's last-window rule therefore applies to window k and to no earlier one. *)
+Theorem C03_lattice_window_count : forall W k,
+  576 < W -> W < 2 ^ 52 -> 0 <= k -> k * (W - 576) < 2 ^ 53 ->
+  let n := FloatCeil.nwin_float64 (W + k * (W - 576)) W 576 in
+  n = k + 1 /\ n = nwin (W + k * (W - 576)) W OVERLAP /\
+  snd (ind2save W n k) = W /\
+  forall i, 0 <= i < k -> snd (ind2save W n i) = W - MARGIN.
+Proof. exact lattice_last_window. Qed.
+Print Assumptions C03_lattice_window_count.
+
+Theorem C03_lattice_neighbours : forall W k, 577 < W -> W < 2 ^ 52 -> 1 <= k -> k * (W - 576) + 1 < 2 ^ 53 ->
+  FloatCeil.nwin_float64 (W + k * (W - 576) + 1) W 576 = k + 2 /\
+  FloatCeil.nwin_float64 (W + k * (W - 576) - 1) W 576 = k + 1.
+Proof.
+  intros W k HW HW2 Hk Hb. split.
+  - apply nwin_float64_lattice_plus; lia.
+  - apply nwin_float64_lattice_minus; lia.
+Qed.
+Print Assumptions C03_lattice_neighbours.
+
+Example C03_example_lattice :
+  nwin 5424 3000 OVERLAP = 2 /\ kept_list 5424 3000 [(0, 3000); (2424, 5424)] 0 = [(0, 2712); (2712, 5424)] /\
+  nwin 17424 9000 OVERLAP = 2 /\ nwin 174144 6000 OVERLAP = 32.
 Proof. vm_compute. repeat split. Qed.
 
 (* ---- glue: the memoised conversion the correspondence runs (Run.run_full) is `roundtrip` itself ---- *)
